@@ -513,6 +513,12 @@ func TestC31(t *testing.T) {
 
 	if rc := r.ReplayCase(); rc != nil {
 		var c verifC31Case
+		var crash struct {
+			Current string `json:"current_case"`
+		}
+		if json.Unmarshal(rc, &crash) == nil && crash.Current != "" {
+			rc = json.RawMessage(crash.Current) // artefact of a worker crash: the case it was running
+		}
 		if err := json.Unmarshal(rc, &c); err != nil {
 			eng.HarnessError("C31: bad replay case: %v", err)
 		}
